@@ -33,6 +33,20 @@ CHECKS = {
         'opaque parser/serializer pairs are only checked for consistency.',
         'DESIGN.md 3/C01',
     ),
+    'C03': (
+        'history invariant over the tapped HCI stream; generated command programs x callers x delays x link situations',
+        'exploration',
+        'Programs of command packets from every registered class (arbitrary field values, situational handles and '
+        'addresses), unregistered opcodes and procedure commands, issued by 1..6 concurrent Host.send_command callers '
+        'through an order-preserving delaying tap to the real virtual controller, with no peer / advertising peer / '
+        'connected peer / peer leaving the link. Invariants: <=1 command outstanding, exactly one Command '
+        'Complete/Status with the right opcode per command, each caller gets its own response, nobody pending at '
+        'quiescence, every procedure accepted as pending is concluded by its completion event within the horizon. '
+        'Every registered class is also sent alone (registry enumerated).',
+        'Trusted: the harness table command->completion event; "eventually" = within 400 virtual seconds and no stall; '
+        'LE connection creation towards a silent peer is concluded by an explicit cancel.',
+        'DESIGN.md 3/C03',
+    ),
     'C02': (
         'differential framing: generated packet list as reference, exhaustive split points for short streams',
         'exploration',
